@@ -469,12 +469,13 @@ CHECKS["C34"] = {
 
 CHECKS["C10"] = {
     "level": "other",
-    "explanation": "Reduced scope: the FRAMING of the hashed text. Both sides are read from the current source on every run — SQL: the concatenation that builds marshalledAsJSON in the body of the insert trigger set_log_hash and of compute_hash (resolved from the migrations); Go: the anonymous struct Log.ComputeHash encodes (field order, JSON names, omitempty) in internal/log.go. With the log type, idempotency key and schema version as symbolic strings (over an alphabet that needs no JSON escaping) and the payload / date renderings as opaque strings shared by both sides, z3 decides whether the two byte strings can differ. For logs without schema version they cannot; for logs with one the trigger's text differs (recorded finding); compute_hash agrees with Go on every such input.",
+    "explanation": "Reduced scope: the FRAMING of the hashed text. Both sides are read from the current source on every run — SQL: the concatenation that builds marshalledAsJSON in the body of the insert trigger set_log_hash and of compute_hash (resolved from the migrations); Go: the anonymous struct Log.ComputeHash encodes (field order, JSON names, omitempty) in internal/log.go. With the log type, idempotency key and schema version as symbolic strings (over an alphabet that needs no JSON escaping) and the payload / date renderings as opaque strings shared by both sides, z3 decides whether the two byte strings can differ. For logs without schema version they cannot; for logs with one the trigger's text differs (recorded finding); compute_hash agrees with Go on every such input. Go half (gosym): the real (*Store).InsertLog runs up to its INSERT (bun objects opaque, the model handed to the INSERT read back; natively: real bun over a recording driver, the memento parsed from the statement text) for three payload kinds whose free-text fields (reference, metadata keys and values, account metadata, deleted key, idempotency key) are symbolic strings; the text PostgreSQL hashes is assembled around the stored memento with the framing decided above, hashed with the SHA-256 model (injective on symbolic content), and compared with the hash the real Log.ComputeHash computes for the same log. An encoder that does not escape HTML is modelled (its rendering of a symbolic string differs from the default one exactly when the string holds <, > or &).",
     "bounds": {"quick": "idempotency key and schema version of <= 2 bytes over [a-zA-Z0-9_-], type <= 12 bytes", "thorough": "<= 3 bytes"},
     "outside": "everything below the framing: encode(memento,'escape') vs the Go rendering of the payload, to_json(date), jsonb key order and number formatting, and the JSON escaping Go applies to the idempotency key and schema version while SQL concatenates them raw (quotes, backslashes, <, >, &, control and non-ASCII characters are excluded from the quantification — a second suspected source of disagreement that this check cannot decide); the previous-hash prefix (base64) is compared only by reading",
     "assumptions": ["the migration resolver keeps the last definition of each function", "payload and date renderings are equal on both sides (not encodable: PostgreSQL text functions)", "bun stores an empty schema version as NULL (nullzero tag)"],
     "technique": "string-theory query (z3) over the two framings extracted from the current SQL and Go sources",
-    "units": [py_unit("c10_hash", "c10", [])],
+    "units": [py_unit("c10_hash", "c10", []),
+              unit("./internal/storage/ledger", ["storage/c10.go"], "^Harness_C10_", QT, flags={"labels": "^(C10:|no-panic)", "max-decisions": 4000}, reach=["end"])],
 }
 
 
